@@ -4,6 +4,8 @@ pub mod c02;
 pub mod wf;
 pub mod c03;
 pub mod c04;
+pub mod c05;
+pub mod c06;
 pub mod c13;
 pub mod c14;
 
@@ -15,6 +17,8 @@ pub fn get(id: &str) -> Option<Box<dyn Prop>> {
         "C02" => Box::new(c02::C02),
         "C03" => Box::new(c03::C03),
         "C04" => Box::new(c04::C04),
+        "C05" => Box::new(c05::C05),
+        "C06" => Box::new(c06::C06),
         "C13" => Box::new(c13::C13),
         "C14" => Box::new(c14::C14),
         _ => return None,
